@@ -85,32 +85,59 @@ def table_rules(facts):
 
 
 def probe_rules(facts):
-    """u32_table probes advance with `(p + 1) & mask` only (the table is circular)"""
+    """u32_table probes advance with `(p + 1) & mask` only (the table is circular).  Independent of local names: a probe loop is a
+    loop whose condition reads `slots[..]` directly or through a local that is assigned from `slots[..]`; the cursor is the local
+    that indexes `slots` inside the loop; every value given to the cursor inside the loop must be `(cursor + 1) & ((1 << lg_size) - 1)`."""
+    from astu import single_assignment_locals
+    from triggers import plainly_assigned_locals
     fns = functions_by(facts, ["cpc"])
     out = []
     for pat, fn in sorted(fns.items()):
         if fn.get("rect") != "datasketches::u32_table" or fn["name"] not in ("lookup", "maybe_delete"):
             continue
+        sa = single_assignment_locals(fn)
+        pa = plainly_assigned_locals(fn)
         loops = []
         walk(fn["body"], lambda n: loops.append(n) if n.get("k") in ("While", "For", "Do") else None)
         key = "u32_table::%s:circular-probe" % fn["name"]
         probs = []
         n_adv = 0
+
+        def reads_slots(e):
+            hit = [False]
+
+            def v(x):
+                if x.get("k") in ("Index", "OpCall") and txt(x).startswith("slots["):
+                    hit[0] = True
+                if x.get("k") == "Ref" and x.get("d") in pa and any(txt(val).startswith("slots[") for val in pa[x["d"]]):
+                    hit[0] = True
+            walk(e, v)
+            return hit[0]
         for L in loops:
-            t = txt(L.get("c"))
-            if "slots[" not in t and "fetched" not in t:
+            if L.get("c") is None or not reads_slots(L["c"]):
                 continue
+            # cursors: locals used as the index of slots inside the loop (or in its condition)
+            cursors = set()
+
+            def cur(x):
+                if x.get("k") == "Index" and txt(x.get("b")) == "slots":
+                    i = strip(x.get("i"))
+                    if isinstance(i, dict) and i.get("k") == "Ref" and i.get("dk") == "local":
+                        cursors.add(i["d"])
+                if x.get("k") == "OpCall" and x.get("op") == "[]" and len(x.get("args", [])) == 2 and txt(x["args"][0]) == "slots":
+                    i = strip(x["args"][1])
+                    if isinstance(i, dict) and i.get("k") == "Ref" and i.get("dk") == "local":
+                        cursors.add(i["d"])
+            walk(L, cur)
             advs = []
-            walk(L, lambda n: advs.append(n) if (n.get("k") == "Assign" and strip(n["l"]).get("k") == "Ref" and strip(n["l"])["n"] in ("probe", "index")) or (n.get("k") == "Un" and n.get("op") in ("++", "--") and strip(n["e"]).get("k") == "Ref") else None)
+            walk(L, lambda n: advs.append(n) if (n.get("k") == "Assign" and strip(n["l"]).get("k") == "Ref" and strip(n["l"]).get("d") in cursors) or (n.get("k") == "Un" and n.get("op") in ("++", "--") and strip(n["e"]).get("k") == "Ref" and strip(n["e"]).get("d") in cursors) else None)
             for a in advs:
-                if a.get("k") == "Assign" and txt(a["r"]).replace(" ", "") == "((%s+1)&mask)" % strip(a["l"])["n"] and a.get("op") == "=":
+                if a.get("k") == "Assign" and a.get("op") == "=" and txt(a["r"], sa).replace(" ", "") == "((%s+1)&((1<<lg_size)-1))" % strip(a["l"])["n"]:
                     n_adv += 1
-                elif a.get("k") == "Assign" and strip(a["l"])["n"] not in ("probe", "index"):
-                    continue
                 else:
                     probs.append("probe advanced by `%s` (not `(p + 1) & mask`)" % txt(a))
-            if L.get("k") == "For" and L.get("inc") is not None:
-                probs.append("the probe sequence is a bounded `for` loop (`%s`): it stops at the end of the array instead of wrapping to slot 0" % t)
+            if L.get("k") == "For" and L.get("inc") is not None and not advs:
+                probs.append("the probe sequence is a bounded `for` loop (`%s`): it stops at the end of the array instead of wrapping to slot 0" % txt(L["c"]))
         if probs:
             out.append(ob("cpc.probe", key, fn["pat"], "violated", "; ".join(probs) + ": entries of a cluster that wraps past the last slot become unreachable", fn["qname"]))
         elif n_adv:
@@ -155,10 +182,12 @@ def union_rules(facts):
                 out.append(ob("cpc.fold", key, fn["pat"], "violated", "reduce_k folds the bit matrix in place / without or_matrix_into_matrix (direct |=: %d, resize: %d): a fold that is exact only for halving loses the rows at or above 2 * new_k" % (len(direct), len(resize)), fn["qname"]))
         if fn["name"] == "internal_update":
             st = stmts_of(fn["body"])
+            from astu import single_assignment_locals
+            sa = single_assignment_locals(fn)
             red, first_merge = None, None
             for i, s in enumerate(st):
-                t = txt(s.get("c")) if s.get("k") == "If" else ""
-                if s.get("k") == "If" and "get_lg_k()" in t and (gt_pair(s["c"]) or (0, 0, 0))[2] and "get_lg_k()" in txt(gt_pair(s["c"])[1]) and any(x.get("cname") == "reduce_k" for x in _calls(s.get("t"))) and red is None:
+                t = txt(s.get("c"), sa) if s.get("k") == "If" else ""
+                if s.get("k") == "If" and "get_lg_k()" in t and (gt_pair(s["c"]) or (0, 0, 0))[2] and "get_lg_k()" in txt(gt_pair(s["c"])[1], sa) and any(x.get("cname") == "reduce_k" for x in _calls(s.get("t"))) and red is None:
                     red = i
                 if first_merge is None and any(x.get("cname") in ("or_table_into_matrix", "or_window_into_matrix", "or_matrix_into_matrix", "walk_table_updating_sketch") for x in _calls(s)):
                     first_merge = i
